@@ -41,12 +41,12 @@ func vhCatch(f func()) (panicked bool) {
 // vhOutState builds an arbitrary open writer state satisfying representation invariant A.1 of DESIGN.md.
 func vhOutState(L int, room int) (*DefaultOutputBitStream, *vhSink) {
 	pos := vhInt("position")
-	vhAssume(pos >= 0 && pos <= L-8 && pos&7 == 0)
-	avail := uint(vhCase("availBits", 1, 64))
+	vhAssume(vhAnd(pos >= 0, vhAnd(pos <= L-8, pos&7 == 0)))
+	avail := uint(vhCase("availBits", vhParam("availLo", 1), vhParam("availHi", 64)))
 	cur := vhU64("current")
 	vhAssume(cur&((uint64(1)<<avail)-1) == 0)
 	n0 := vhInt("sinkLen")
-	vhAssume(n0 >= 0 && n0 <= 1<<16)
+	vhAssume(vhAnd(n0 >= 0, n0 <= 1<<16))
 	sink := &vhSink{buf: vhArb("sink", n0+room), n: n0, failAt: -1}
 	bs := &DefaultOutputBitStream{}
 	bs.buffer = vhArb("buffer", L)
@@ -60,19 +60,11 @@ func vhOutState(L int, room int) (*DefaultOutputBitStream, *vhSink) {
 
 // vhOutInv is representation invariant A.1 (open stream).
 func vhOutInv(bs *DefaultOutputBitStream, sink *vhSink, L int) bool {
-	if bs.closed || len(bs.buffer) != L {
-		return false
-	}
-	if bs.position < 0 || bs.position > L-8 || bs.position&7 != 0 {
-		return false
-	}
-	if bs.availBits < 1 || bs.availBits > 64 {
-		return false
-	}
-	if bs.current&((uint64(1)<<bs.availBits)-1) != 0 {
-		return false
-	}
-	return bs.written == int64(sink.n)<<3
+	ok := vhAnd(!bs.closed, len(bs.buffer) == L)
+	ok = vhAnd(ok, vhAnd(bs.position >= 0, vhAnd(bs.position <= L-8, bs.position&7 == 0)))
+	ok = vhAnd(ok, vhAnd(bs.availBits >= 1, bs.availBits <= 64))
+	ok = vhAnd(ok, bs.current&((uint64(1)<<bs.availBits)-1) == 0)
+	return vhAnd(ok, bs.written == int64(sink.n)<<3)
 }
 
 // vhAlphaLen is |alpha|: bits acknowledged so far.
@@ -174,7 +166,7 @@ func H14_out_WriteArray() {
 	K := vhParam("K", 135)
 	bs, sink := vhOutState(L, 3*L)
 	nbytes := vhInt("len(bits)")
-	vhAssume(nbytes >= 0 && nbytes <= (K+7)/8+1)
+	vhAssume(vhAnd(nbytes >= 0, nbytes <= (K+7)/8+1))
 	bits := vhArb("bits", nbytes)
 	cnt := vhUint("count")
 	vhAssume(cnt <= uint(K))
@@ -191,7 +183,7 @@ func H14_out_WriteArray() {
 	if cnt > uint(nbytes)<<3 {
 		vhReach("count>len")
 		vhAssert(panicked, "count>len-must-panic")
-		vhAssert(sink.n == n0 && vhAlphaLen(bs, sink) == a0, "count>len-state-untouched")
+		vhAssert(vhAnd(sink.n == n0, vhAlphaLen(bs, sink) == a0), "count>len-state-untouched")
 		return
 	}
 	vhAssert(!panicked, "no-panic")
@@ -211,4 +203,52 @@ func H14_out_WriteArray() {
 		vhAssert(vhAlphaBit(bs, sink, p) == want, "new-bits-are-array-bits")
 		vhReach("new-bit-checked")
 	}
+}
+
+// H14_out_Close: Close from an arbitrary valid state pads with zero bits to a byte boundary, flushes everything,
+// keeps Written() (padding excluded), and afterwards every operation is refused without touching the sink.
+func H14_out_Close() {
+	L := vhParam("L", 1024)
+	bs, sink := vhOutState(L, 2*L)
+	p := vhU64("probe")
+	a0 := vhAlphaLen(bs, sink)
+	total := (a0 + 7) &^ 7
+	vhAssume(p < total)
+	var pre uint64
+	if p < a0 {
+		pre = vhAlphaBit(bs, sink, p)
+	}
+	err := bs.Close()
+	vhAssert(err == nil, "close-ok-on-healthy-sink")
+	vhAssert(bs.Closed(), "closed-flag")
+	vhAssert(uint64(sink.n)<<3 == total, "sink-holds-all-bytes")
+	vhAssert(bs.Written() == a0, "written-excludes-padding")
+	vhAssert((bs.Written()+7)>>3 == uint64(sink.n), "written-bytes-equal-sink-bytes")
+	got := uint64(sink.buf[p>>3]>>(7-(p&7))) & 1
+	if p < a0 {
+		vhAssert(got == pre, "image-is-alpha")
+	} else {
+		vhAssert(got == 0, "padding-is-zero")
+		vhReach("padding-checked")
+	}
+	// closed streams refuse further operations
+	n1 := sink.n
+	op := vhCase("opAfterClose", 0, 3)
+	var panicked bool
+	switch op {
+	case 0:
+		panicked = vhCatch(func() { bs.WriteBit(vhInt("bit")) })
+	case 1:
+		panicked = vhCatch(func() { bs.WriteBits(vhU64("v"), vhUint("c")) })
+	case 2:
+		panicked = vhCatch(func() { bs.WriteArray(vhArb("arr", 4), vhUint("c2")) })
+	case 3:
+		vhAssert(bs.Close() == nil, "second-close-is-nil")
+		panicked = true
+	}
+	vhAssert(panicked, "closed-stream-refuses")
+	vhAssert(sink.n == n1, "closed-stream-sink-untouched")
+	// (observation, not asserted: a refused WriteBit/WriteBits on a closed stream still moves Written() by the
+	// 64-bit word it tried to push; the property only requires the refusal)
+	vhReach("after-close-checked")
 }
